@@ -19,13 +19,13 @@ template<> struct tn<int64_t> { static const char* n() { return "int64"; } };
 static inline uint32_t rnd(uint32_t& s) { s = s * 1664525u + 1013904223u; return s >> 8; }
 template<typename T> struct gen;
 template<> struct gen<float> { static float v(uint32_t& s, int mode) {
-    static const float sp[] = {0.f, -0.f, 1.f, -1.f, 3.5f, -2.25f, 1e-30f, -1e30f, std::numeric_limits<float>::infinity(), -std::numeric_limits<float>::infinity(),
+    static const float sp[] = {0.f, -0.f, 1.f, -1.f, 3.5f, -2.25f, 0.5f, -0.5f, 2.5f, -2.5f, 0.49999997f, 8388608.5f, 4194304.5f, 1e-30f, -1e30f, std::numeric_limits<float>::infinity(), -std::numeric_limits<float>::infinity(),
                                std::numeric_limits<float>::quiet_NaN(), std::numeric_limits<float>::min(), std::numeric_limits<float>::denorm_min(), 16777216.f};
     if (mode == 0) return (float)((int)(rnd(s) % 17) - 8);
     if (mode == 1) return sp[rnd(s) % (sizeof sp / sizeof sp[0])];
     return ((float)(rnd(s) % 200001) - 100000.f) / 317.f; } };
 template<> struct gen<double> { static double v(uint32_t& s, int mode) {
-    static const double sp[] = {0., -0., 1., -1., 3.5, -2.25, 1e-300, -1e300, std::numeric_limits<double>::infinity(), -std::numeric_limits<double>::infinity(),
+    static const double sp[] = {0., -0., 1., -1., 3.5, -2.25, 0.5, -0.5, 2.5, -2.5, 0.49999999999999994, 4503599627370496.5, 2251799813685248.5, 1e-300, -1e300, std::numeric_limits<double>::infinity(), -std::numeric_limits<double>::infinity(),
                                 std::numeric_limits<double>::quiet_NaN(), std::numeric_limits<double>::min(), std::numeric_limits<double>::denorm_min(), 9007199254740992.};
     if (mode == 0) return (double)((int)(rnd(s) % 17) - 8);
     if (mode == 1) return sp[rnd(s) % (sizeof sp / sizeof sp[0])];
